@@ -21,13 +21,13 @@ type deferEntry struct {
 	guard T
 	call  *ast.CallExpr
 	// evaluated at defer time
-	fnLit  *ast.FuncLit
-	args   []Val
-	recv   *Val
-	callee types.Object
-	funVal *Val
-	builtin string     // deferred call of a builtin (close)
-	orig   *deferEntry // the entry created by the defer statement (copies made at merges point back to it)
+	fnLit   *ast.FuncLit
+	args    []Val
+	recv    *Val
+	callee  types.Object
+	funVal  *Val
+	builtin string      // deferred call of a builtin (close)
+	orig    *deferEntry // the entry created by the defer statement (copies made at merges point back to it)
 }
 
 // State is one symbolic path (with merged sub-paths).
@@ -90,6 +90,7 @@ type Obligation struct {
 	Inputs   []string // names of input constants for model projection
 	HeapNote string
 	Replay   *replayResult
+	LibPre   bool
 }
 
 type loopSpec struct {
@@ -124,41 +125,41 @@ type Unit struct {
 	sig   *types.Signature
 	recv  *types.Var
 
-	consts []string
-	facts  []string
-	obls   []*Obligation
-	nfresh int
-	entry  *State
-	fr     *frame
-	boxed  map[types.Object]T // locals whose address is taken -> ref
-	assumptions map[string]bool
-	libUsed     map[string]bool
-	calleesUsed map[string]bool
-	unsupported []string
-	oblNames    map[string]int
-	inputs      []string
-	atSeen      map[int]int // clause index -> matches
-	callOrd     map[string]int
-	inSpec      int
-	skolems     int
-	nepoch      int
-	dry         int
-	binders     int
-	inlineDepth int
+	consts        []string
+	facts         []string
+	obls          []*Obligation
+	nfresh        int
+	entry         *State
+	fr            *frame
+	boxed         map[types.Object]T // locals whose address is taken -> ref
+	assumptions   map[string]bool
+	libUsed       map[string]bool
+	calleesUsed   map[string]bool
+	unsupported   []string
+	oblNames      map[string]int
+	inputs        []string
+	atSeen        map[int]int // clause index -> matches
+	callOrd       map[string]int
+	inSpec        int
+	skolems       int
+	nepoch        int
+	dry           int
+	binders       int
+	inlineDepth   int
 	selectChoices []string
-	specErrors  []string
-	unitNames   map[string]Val
+	specErrors    []string
+	unitNames     map[string]Val
 	closureBlocks map[string]*Block
-	litScope    *ast.FuncLit
-	letWitness  int
-	inDefer     int
-	witMemo     map[string]Val
-	iterState   *State
-	entryFacts  map[string]bool
-	witnessHint types.Type
-	witnessTyp  types.Type
-	curPos      token.Pos
-	errGlobals  []T
+	litScope      *ast.FuncLit
+	letWitness    int
+	inDefer       int
+	witMemo       map[string]Val
+	iterState     *State
+	entryFacts    map[string]bool
+	witnessHint   types.Type
+	witnessTyp    types.Type
+	curPos        token.Pos
+	errGlobals    []T
 }
 
 func (x *Unit) fresh(prefix string, srt Sort) T {
